@@ -82,6 +82,10 @@ Fixpoint strip_by (f : bytes -> nat) (fuel : nat) (l : bytes) : bytes :=
   | O => l
   | S k => match f l with O => l | n => strip_by f k (skipn n l) end
   end.
+(* bytes.strip() computed with linear-time reversals (List.rev is quadratic); equal to
+   Base.Bytes.strip, see Lib.fstrip_strip *)
+Definition fstrip (l : bytes) : bytes := rev_append (lstrip (rev_append (lstrip l) [])) [].
+
 Definition str_strip (l : bytes) : bytes :=
   let a := strip_by uws_head (length l) l in
   rev (strip_by uws_tail (length a) (rev a)).
@@ -193,7 +197,7 @@ Definition smaps_sums (data : bytes) : sums :=
    sum_ints (findall try_swap 0 data) * 1024).
 
 Definition parse_smaps (ps : pstate) (smaps : file_res) : outcome sums :=
-  with_file ps smaps (fun content => Val (smaps_sums (strip content))).
+  with_file ps smaps (fun content => Val (smaps_sums (fstrip content))).
 
 (* ------------------------------------------------ memory_full_info *)
 Definition memory_full_info (ps : pstate) (pagesize : Z) (has_rollup : bool)
@@ -288,7 +292,7 @@ Definition maps_of_data (exists_ : bytes -> bool) (data : bytes) : outcome (list
 
 Definition memory_maps (ps : pstate) (exists_ : bytes -> bool) (smaps : file_res) : outcome (list maprow) :=
   with_file ps smaps (fun content =>
-    match strip content with
+    match fstrip content with
     | [] => match ps with Zombie => Exc ZombieProcess | _ => Val [] end
     | data => maps_of_data exists_ data
     end).
